@@ -130,10 +130,12 @@ func c14CheckNameAddrHeader(n ANameAddr, asTo bool) string {
 				return fmt.Sprintf("To %q: GetHost()=%q (err %v), want %q", text, h, err, n.URI.Host)
 			}
 		}
+		seenP := map[string]bool{}
 		for _, p := range n.Params {
-			if p.K == "tag" {
+			if p.K == "tag" || seenP[p.K] {
 				continue
 			}
+			seenP[p.K] = true
 			if g, err := v.GetParam(p.K); err != nil || g != p.V {
 				return fmt.Sprintf("To %q: parameter %q decoded as %q (err %v), want %q", text, p.K, g, err, p.V)
 			}
@@ -150,10 +152,12 @@ func c14CheckNameAddrHeader(n ANameAddr, asTo bool) string {
 			return fmt.Sprintf("From %q: GetAddrSpec failed: %v", text, err)
 		}
 		addr = a.String()
+		seenP := map[string]bool{}
 		for _, p := range n.Params {
-			if p.K == "tag" {
+			if p.K == "tag" || seenP[p.K] {
 				continue
 			}
+			seenP[p.K] = true
 			if g, err := v.GetParam(p.K); err != nil || g != p.V {
 				return fmt.Sprintf("From %q: parameter %q decoded as %q (err %v), want %q", text, p.K, g, err, p.V)
 			}
@@ -339,6 +343,17 @@ func c14CheckMessage(m *AMsg) string {
 	msg.GetFrom()
 	msg.GetTo()
 	msg.GetCSeq()
+	// everything the proxy computes from a message before it relays it
+	msg.GetDialog()
+	msg.GetClientTransaction()
+	msg.GetServerTransaction()
+	msg.GetMethod()
+	msg.GetExpires(0)
+	if to, err := msg.GetTo(); err == nil {
+		to.GetHost()
+		to.GetUserHost()
+	}
+	_ = msg.String()
 	out, err := msg.Bytes()
 	if err != nil {
 		return fmt.Sprintf("Bytes failed: %v", err)
